@@ -48,9 +48,13 @@ def class_table(chars):
     for item in row.split()[1:]:
         t, bits = item.split(":")
         t = int(t)
-        c = {f: bits[i] == "1" for i, f in enumerate(FLAGS)}
+        c = {f: bits[i] == "1" for i, f in enumerate(FLAGS)} if bits[0] != "-" else None
         b = {f: bits[10 + i] == "1" for i, f in enumerate(FLAGS)} if bits[10] != "-" else None
-        tab[t] = dict(char=c, byte=b, aalpha=bits[20] == "1", aalnum=bits[21] == "1")
+        g = None
+        if len(bits) >= 34 and bits[22] != "-":
+            g = {f: bits[22 + i] == "1" for i, f in enumerate(FLAGS)}
+            g["aalpha"], g["aalnum"] = bits[32] == "1", bits[33] == "1"
+        tab[t] = dict(char=c, byte=b, aalpha=bits[20] == "1", aalnum=bits[21] == "1", graph=g)
     return tab
 
 # ---- the documented character classes, stated independently of chumsky (property C14) ----
@@ -61,10 +65,15 @@ def digit_val(t):
     if 97 <= t <= 122: return t - 97 + 10
     if 65 <= t <= 90: return t - 65 + 10
     return None
+CRLF = 3000000      # the cluster CR LF of the class table (a &Grapheme only)
 def expected_class(t):
     """flag -> bool for the character t, from the property's text: radix-r digits are the ASCII digits/letters below r, ascii idents
     [A-Za-z_][A-Za-z0-9_]*, unicode idents XID_Start|_ XID_Continue* (Python's identifier rules are XID based), whitespace = White_Space,
     inline whitespace = space and tab"""
+    if t == CRLF:       # the eighth documented line terminator: whitespace, a newline, nothing else
+        e = {f: False for f in FLAGS + ["aalpha", "aalnum"]}
+        e["ws"] = e["nl"] = True
+        return e
     c = chr(t)
     e = dict(ws=t in WHITE_SPACE, iws=t in (32, 9), nl=t in NEWLINES)
     for r in (2, 8, 10, 16, 36):
@@ -78,10 +87,16 @@ def expected_class(t):
 
 def class_oracle(tab):
     """(token, kind, flag, got, want) for every character whose classification by chumsky's text::Char differs from the documented class;
-    bytes are held to the char classification on ASCII"""
+    bytes are held to the char classification on ASCII; a one-code-point grapheme cluster to the classification of its character, and the
+    cluster CR LF to "whitespace and newline" """
     bad = []
     for t, row in sorted(tab.items()):
         want = expected_class(t)
+        if row.get("graph") is not None:
+            for f in FLAGS + ["aalpha", "aalnum"]:
+                if f in ("aalpha", "aalnum") and t >= 128 and t != CRLF: continue
+                if row["graph"][f] != want[f]: bad.append((t, "grapheme", f, row["graph"][f], want[f]))
+        if row["char"] is None: continue
         for f in FLAGS:
             if row["char"][f] != want[f]: bad.append((t, "char", f, row["char"][f], want[f]))
             if row["byte"] is not None and t < 128 and row["byte"][f] != want[f]: bad.append((t, "u8", f, row["byte"][f], want[f]))
@@ -133,7 +148,8 @@ def text_cases(rng, tier):
     cid = 0
     for s in strings:
         for p in (parsers if len(s) <= 2 or tier != "quick" else rng.sample(parsers, 6)):
-            for kind in ("str", "bytes"):
+            for kind in ("str", "bytes", "graphemes"):
+                if kind == "graphemes" and any(t >= 128 for t in s): continue                      # ASCII text: clusters are the characters, and CR LF
                 if kind == "bytes" and (any(t >= 256 for t in s) or p == "newline"): continue      # (bytes 128..255: not ASCII text, but the languages must still reject / delimit them)
                 if kind == "bytes" and isinstance(p, list) and p[0] in ("keyword", "ukeyword") and any(t >= 128 for t in p[1]): continue
                 cid += 1
@@ -162,10 +178,10 @@ def check_c14(pid, tier, seed):
     if len(tab) != len(chars):
         res["build_broken"].append("textharness class table incomplete"); return res
     # independent oracle on the classes themselves: all of Latin-1 plus the extra characters
-    wide = sorted(set(chars) | set(range(0, 256)) | {5760, 8192, 8202, 8239, 8287, 12288, 8203, 1632, 65296, 42, 64, 96, 91, 123, 47, 58})
+    wide = sorted(set(chars) | {CRLF} | set(range(0, 256)) | {5760, 8192, 8202, 8239, 8287, 12288, 8203, 1632, 65296, 42, 64, 96, 91, 123, 47, 58})
     wtab = class_table(wide)
     cbad = class_oracle(wtab) if len(wtab) == len(wide) else [(-1, "table", "incomplete", None, None)]
-    res["stats"]["class_entries"] = len(wtab) * (len(FLAGS) * 2 + 2)
+    res["stats"]["class_entries"] = len(wtab) * (len(FLAGS) * 3 + 4)
     if cbad:
         w = cbad[0]
         res["violations"].append(("oracle", "a character class of text::Char differs from the documented one",
@@ -179,6 +195,7 @@ def check_c14(pid, tier, seed):
         meta[cid] = (kind, p, s)
         h = p[0] if isinstance(p, list) else p
         if h in ("regex", "regexat"): continue
+        if kind == "graphemes": continue          # held to the &str result below (the model's tokens are characters)
         g = model_grammar(p, kind, tab, chars)
         lazy = ["ThenIgnore", g, ["RepUnit", ["IRep", "Any", 0, "inf"]]]
         mlines.append(sx([2 * cid, "slice", "simple", "parse", lazy, s]))
@@ -201,6 +218,9 @@ def check_c14(pid, tier, seed):
             if len(parts) > 2 and parts[2][1:] != pref[1:]:
                 regex_bad.append((cid, r))
             continue
+        if kind == "graphemes":
+            byinput.setdefault((str(p), tuple(s)), {})[kind] = (pref, full)
+            continue
         def mview(out):
             a, b = Res(out.get(2 * cid, "MISSING")), Res(out.get(2 * cid + 1, "MISSING"))
             pm = ("P" + a.val[1:]) if a.kind == "OK" and a.val and a.val.startswith("Z") else "P-"
@@ -221,6 +241,9 @@ def check_c14(pid, tier, seed):
         if "str" in d and "bytes" in d and all(t < 128 for t in s):
             res["stats"]["str_bytes_pairs"] += 1
             if d["str"] != d["bytes"]: sb_bad.append((p, s, d))
+        if "str" in d and "graphemes" in d:
+            res["stats"]["str_graphemes_pairs"] = res["stats"].get("str_graphemes_pairs", 0) + 1
+            if d["str"] != d["graphemes"]: sb_bad.append((p, s, d))
     res["sb_bad"] = sb_bad
     for lst, kind, txt in ((tie_bad, "tie", "text parser result differs from the model of text.rs"),
                            (sem_bad, "oracle", "text parser result differs from the specification"),
